@@ -179,6 +179,10 @@ def r3(ctx):
         ctx.check(good, 'R3', 'root-first', h, 'block hashes are collected root (anchor) first, before any child', 'hash collection does not push the root before its children')
 
 
+def P_downcast_partial(x):
+    return any(y[0] == 'downcast' and y[2] == 'Partial' for y in walk(x))
+
+
 def r4_r7(ctx, F):
     prog = ctx.prog
     # the reply closure: child closure of F that writes response_to_process
@@ -275,7 +279,9 @@ def r4_r7(ctx, F):
                   'follow-up bytes are appended to the stored partial block (partial_block.append(&mut bytes))',
                   'follow-up arm does not append the received bytes to the stored partial block')
         # index increment by exactly 1 and completion test
-        idx_locals = [i for i, l in enumerate(cl.locals) if l.get('name') == 'follow_up_index']
+        from sa.util import find_locals, is_var
+        idx_locals = find_locals(prog, cl, lambda x, l: x[0] == 'bin' and x[1] == 'Add' and (is_var(l)(x[2]) or is_var(l)(x[3])),
+                                 lambda x, l: x[0] == 'field' and x[2] == '1' and P_downcast_partial(x))
         inc_ok, test = False, None
         for l in idx_locals:
             des = ex(prog, cl).def_exprs(l)
@@ -296,7 +302,7 @@ def r4_r7(ctx, F):
             ctx.unknown('R4', 'followup-completion-test', cl.where(bb0), 'completion test of the follow-up arm not recognised')
         else:
             bi, c = comp
-            ctx.check(c[1] in ('Eq', 'Le', 'Lt') and any(x[0] == 'var' and x[1] == 'follow_up_index' for x in walk(c)), 'R4', 'followup-completion-test', cl.where(bi),
+            ctx.check(c[1] in ('Eq', 'Le', 'Lt') and any(x[0] == 'var' and x[2] in idx_locals for x in walk(c)), 'R4', 'followup-completion-test', cl.where(bi),
                       'response completes when the page index reaches remaining_follow_ups (%s)' % show(c), 'completion test is %s' % show(c))
             # R7
             monotone_ok = (c[1] in ('Le', 'Lt') and c[2][0] == 'field')  # remaining <= index
